@@ -38,6 +38,8 @@ def pick_phase(rng) -> float:
         if float(v).is_integer() and rng.random() < 0.5:
             return int(v)
         return float(v)
+    if rng.random() < 0.08:
+        return float(int(rng.integers(-9, 10)) * math.pi / 4)       # every multiple of pi/4 (labels like 3pi/4, -5pi/4)
     return float(rng.uniform(-4 * math.pi, 4 * math.pi))
 
 
